@@ -15,8 +15,10 @@ PROP = dict(
          "int/float/bool/string declared with #host; direct, nested, first-class and in-function calls), 2/7 status "
          "programs (main completes or fails with each of the 4 error kinds while 1-3 tasks run forever, are blocked on a "
          "read, have failed or have finished), 1/7 host calls from a task, 1/7 generated single-thread programs; plus (quick 150 / thorough 1500) programs in which a "
-         "task prints in a loop for ever while main fails (4 kinds) or completes after k steps, budgets {2,3,7,100,1000000}. Every "
-         "run: at most 20000 calls (never reporting completion or failure is a failure) and two further calls without servicing "
+         "task prints in a loop for ever while main fails (4 kinds) or completes after k steps, budgets {2,3,7,100,1000000}. A third of the host-call "
+         "programs declare their host functions in a second root file (compile_bytecode_with_host_funcs). At every return the "
+         "accessors RuntimeStatus::is_done/error and VmGreenThread::get_pending_host_func/get_error must agree with the status "
+         "kinds. Every run: at most 20000 calls (never reporting completion or failure is a failure) and two further calls without servicing "
          "after the report, which must repeat the reported status. "
          "spec_fail per call: steps_consumed <= budget, = instructions executed (hook); Done <=> main executed Stop in "
          "this call and nothing ran after it; PendingHostFunc/OutOfSteps/MainThreadError agree with the thread flags, in particular a failed main thread is reported "
